@@ -436,3 +436,7 @@ CLAUSES = [
     Clause("C01.swap", swap_cases, swap_check, doc="swap = transposition, 1-indexed, dim list/2-row/int/omitted"),
     Clause("C01.operators", operator_cases, operator_check, doc="permutation_operator / swap_operator dense+sparse = reference unitary"),
 ]
+
+# every toqito call of this property is repeated with column-major copies of its array arguments (engine.call, layout twin)
+for _c in CLAUSES:
+    _c.layout_twin = True
